@@ -635,7 +635,8 @@ theorem foldl_stepT_eq (s : Bytes) : ∀ a, s.foldl stepV a < 2 ^ 32 → s.foldl
     intro a h
     simp only [List.foldl] at h ⊢
     have hm := foldl_stepV_mono s (stepV a b)
-    have : a * 128 < 2 ^ 32 := by unfold stepV at hm; omega
+    have hs : a * 128 ≤ stepV a b := by unfold stepV; omega
+    have : a * 128 < 2 ^ 32 := by omega
     rw [stepT_eq a b this]
     exact ih _ h
 
@@ -667,7 +668,7 @@ theorem toU32_unfold (pos : Oid.Position) (s0 : UInt8) (t : Bytes) :
   · have : (decide (t.length + 1 > 5) || (t.length + 1 == 5 && decide (16 ≤ s0.toNat % 128))) = false := by
       simpa using h
     simp only [this, Bool.false_eq_true, if_false, h]
-    cases pos <;> rfl
+    cases pos <;> simp only [arcOf, apply_ite some] <;> rfl
 
 theorem value_fits (s0 : UInt8) (t : Bytes) (h : ¬ tooLarge s0 t) : subIdValue (s0 :: t) < 2 ^ 32 := by
   unfold tooLarge at h
@@ -677,8 +678,10 @@ theorem value_fits (s0 : UInt8) (t : Bytes) (h : ¬ tooLarge s0 t) : subIdValue 
   · simp only [List.foldl, stepV]; omega
   · simp only [List.foldl, stepV]; omega
   · simp only [List.foldl, stepV]; omega
-  · simp only [List.foldl, stepV]
-    simp only [List.length_cons, List.length_nil] at h
+  · have h16 : s0.toNat % 128 < 16 := by
+      simp only [List.length_cons, List.length_nil, true_and] at h
+      omega
+    simp only [List.foldl, stepV]
     omega
   · simp only [List.length_cons] at h; omega
 
@@ -694,5 +697,674 @@ theorem toU32_eq (pos : Oid.Position) (s0 : UInt8) (t : Bytes) :
     have := value_fits s0 t h
     rw [subIdValue_def] at this ⊢
     rw [foldl_stepT_eq _ 0 this]
+
+/-! ### minimally encoded sub-identifiers: structure and value of `base128 v`, for every `v` -/
+
+theorem digits_lt : ∀ (f n : Nat), ∀ d ∈ digits128 f n, d < 128 := by
+  intro f
+  induction f with
+  | zero => intro n d hd; simp [digits128] at hd
+  | succ f ih =>
+    intro n d hd
+    simp only [digits128] at hd
+    by_cases h : n < 128
+    · simp only [h, if_true, List.mem_singleton] at hd; omega
+    · simp only [h, if_false, List.mem_append, List.mem_singleton] at hd
+      cases hd with
+      | inl h1 => exact ih _ d h1
+      | inr h1 => omega
+
+theorem digits_concat (n : Nat) : ∃ init, digits128 (n + 1) n = init ++ [n % 128] := by
+  by_cases h : n < 128
+  · exact ⟨[], by rw [digits_1 n h, Nat.mod_eq_of_lt h]; rfl⟩
+  · exact ⟨_, digits_step n (by omega)⟩
+
+theorem digits_value : ∀ (k n : Nat), n < k →
+    (digits128 (n + 1) n).foldl (fun a d => a * 128 + d) 0 = n := by
+  intro k
+  induction k with
+  | zero => intro n h; omega
+  | succ k ih =>
+    intro n hn
+    by_cases h : n < 128
+    · rw [digits_1 n h]; simp
+    · rw [digits_step n (by omega), List.foldl_append]
+      have : n / 128 < k := by omega
+      rw [ih (n / 128) this]
+      simp only [List.foldl]; omega
+
+/-- the continuation octet for digit `d` -/
+def hi (d : Nat) : UInt8 := UInt8.ofNat (d + 128)
+
+/-- `base128 v` is: continuation octets for all digits but the last, then the last digit -/
+theorem base128_decomp (n : Nat) : ∃ init,
+    digits128 (n + 1) n = init ++ [n % 128] ∧ base128 n = init.map hi ++ [UInt8.ofNat (n % 128)] := by
+  obtain ⟨init, hd⟩ := digits_concat n
+  refine ⟨init, hd, ?_⟩
+  unfold base128
+  simp only [hd, List.dropLast_concat, List.getLast?_concat, Option.map_some, Option.toList_some]
+  rfl
+
+theorem hi_toNat (d : Nat) (h : d < 128) : (hi d).toNat = d + 128 := by
+  unfold hi; rw [toNat_ofNat]; omega
+
+theorem foldl_stepV_hi (init : List Nat) (h : ∀ d ∈ init, d < 128) : ∀ a,
+    (init.map hi).foldl stepV a = init.foldl (fun a d => a * 128 + d) a := by
+  induction init with
+  | nil => intro a; rfl
+  | cons d init ih =>
+    intro a
+    simp only [List.map_cons, List.foldl]
+    have hd := h d List.mem_cons_self
+    have : stepV a (hi d) = a * 128 + d := by unfold stepV; rw [hi_toNat d hd]; omega
+    rw [this]
+    exact ih (fun e he => h e (List.mem_cons_of_mem _ he)) _
+
+/-- the value of the minimal sub-identifier of `v` is `v` (all `v`) -/
+theorem subIdValue_base128 (v : Nat) : subIdValue (base128 v) = v := by
+  obtain ⟨init, hd, hb⟩ := base128_decomp v
+  have hlt : ∀ d ∈ init, d < 128 := fun d hm =>
+    digits_lt (v + 1) v d (by rw [hd]; exact List.mem_append_left _ hm)
+  have hv := digits_value (v + 1) v (by omega)
+  rw [hd, List.foldl_append] at hv
+  simp only [List.foldl] at hv
+  rw [subIdValue_def, hb, List.foldl_append, foldl_stepV_hi init hlt]
+  simp only [List.foldl, stepV, toNat_ofNat]
+  omega
+
+/-- a sub-identifier: octets with bit 8 set, then one with bit 8 clear -/
+def IsSubId (s : Bytes) : Prop :=
+  ∃ init last, s = init ++ [last] ∧ (∀ b ∈ init, 128 ≤ b.toNat) ∧ last.toNat < 128
+
+theorem base128_isSubId (v : Nat) : IsSubId (base128 v) := by
+  obtain ⟨init, hd, hb⟩ := base128_decomp v
+  have hlt : ∀ d ∈ init, d < 128 := fun d hm =>
+    digits_lt (v + 1) v d (by rw [hd]; exact List.mem_append_left _ hm)
+  refine ⟨init.map hi, UInt8.ofNat (v % 128), hb, ?_, ?_⟩
+  · intro b hb'
+    obtain ⟨d, hd1, hd2⟩ := List.mem_map.mp hb'
+    rw [← hd2, hi_toNat d (hlt d hd1)]; omega
+  · rw [toNat_ofNat]; omega
+
+theorem subIdsAux_run (init : Bytes) (last : UInt8) (tail : Bytes)
+    (hi' : ∀ b ∈ init, 128 ≤ b.toNat) (hl : last.toNat < 128) : ∀ cur,
+    subIdsAux (init ++ last :: tail) cur = (subIdsAux tail []).map ((cur ++ init ++ [last]) :: ·) := by
+  induction init with
+  | nil => intro cur; simp [subIdsAux, hl]
+  | cons b init ih =>
+    intro cur
+    have hb : ¬ b.toNat < 128 := by have := hi' b List.mem_cons_self; omega
+    simp only [List.cons_append, subIdsAux, hb, if_false]
+    rw [ih (fun e he => hi' e (List.mem_cons_of_mem _ he)) (cur ++ [b])]
+    simp
+
+theorem subIdsAux_flat (l : List Bytes) (h : ∀ s ∈ l, IsSubId s) : subIdsAux l.flatten [] = some l := by
+  induction l with
+  | nil => rfl
+  | cons s l ih =>
+    obtain ⟨init, last, hs, h1, h2⟩ := h s List.mem_cons_self
+    rw [List.flatten_cons, hs, List.append_assoc, List.singleton_append,
+      subIdsAux_run init last l.flatten h1 h2 [], ih (fun e he => h e (List.mem_cons_of_mem _ he))]
+    simp
+
+/-- splitting the concatenation of sub-identifiers gives them back -/
+theorem subIds_flat (l : List Bytes) (hne : l ≠ []) (h : ∀ s ∈ l, IsSubId s) : subIds l.flatten = some l := by
+  unfold subIds
+  have : l.flatten.isEmpty = false := by
+    cases l with
+    | nil => exact absurd rfl hne
+    | cons s l =>
+      obtain ⟨init, last, hs, _, _⟩ := h s List.mem_cons_self
+      rw [List.flatten_cons, hs]
+      cases init <;> rfl
+  rw [this]; simp only [Bool.false_eq_true, if_false]
+  exact subIdsAux_flat l h
+
+theorem digits_len : ∀ (k n : Nat), 128 ^ k ≤ n → k + 1 ≤ (digits128 (n + 1) n).length := by
+  intro k
+  induction k with
+  | zero =>
+    intro n _
+    obtain ⟨init, hd⟩ := digits_concat n
+    rw [hd]; simp
+  | succ k ih =>
+    intro n h
+    have hp : 128 ^ (k + 1) = 128 ^ k * 128 := Nat.pow_succ 128 k
+    have h1 : 1 ≤ 128 ^ k := Nat.pow_pos (by decide)
+    have hn : 128 ≤ n := by
+      have : 128 ^ k * 128 ≥ 1 * 128 := Nat.mul_le_mul_right 128 h1
+      omega
+    have hdiv : 128 ^ k ≤ n / 128 := by
+      rw [Nat.le_div_iff_mul_le (by decide)]; omega
+    rw [digits_step n hn, List.length_append]
+    have := ih (n / 128) hdiv
+    simp only [List.length_singleton]; omega
+
+theorem base128_length (v : Nat) : (base128 v).length = (digits128 (v + 1) v).length := by
+  obtain ⟨init, hd, hb⟩ := base128_decomp v
+  rw [hd, hb]; simp
+
+/-- a minimal sub-identifier is "too large" for `to_u32` exactly when its value needs more than
+    32 bits -/
+theorem base128_tooLarge (v : Nat) (s0 : UInt8) (t : Bytes) (h : base128 v = s0 :: t) :
+    tooLarge s0 t ↔ 2 ^ 32 ≤ v := by
+  unfold tooLarge
+  by_cases h1 : v < 128
+  · rw [base128_1 v h1] at h; cases h
+    simp only [List.length_nil]; constructor <;> intro hh <;> omega
+  · by_cases h2 : v < 16384
+    · rw [base128_2 v (by omega) h2] at h; cases h
+      simp only [List.length_cons, List.length_nil]; constructor <;> intro hh <;> omega
+    · by_cases h3 : v < 2097152
+      · rw [base128_3 v (by omega) h3] at h; cases h
+        simp only [List.length_cons, List.length_nil]; constructor <;> intro hh <;> omega
+      · by_cases h4 : v < 268435456
+        · rw [base128_4 v (by omega) h4] at h; cases h
+          simp only [List.length_cons, List.length_nil]; constructor <;> intro hh <;> omega
+        · by_cases h5 : v < 34359738368
+          · rw [base128_5 v (by omega) h5] at h; cases h
+            simp only [List.length_cons, List.length_nil, toNat_ofNat, true_and]
+            constructor <;> intro hh <;> omega
+          · have hl := digits_len 5 v (by omega)
+            rw [← base128_length, h, List.length_cons] at hl
+            constructor <;> intro hh <;> omega
+
+/-- **C20, numeric conversion.**  For the minimally encoded sub-identifier of ANY `v`:
+    if `v` fits in 32 bits, `to_u32` returns exactly the arc (`v` itself, or the first / second
+    arc by the X.690 rule); otherwise it reports "too large". -/
+theorem toU32_base128 (pos : Oid.Position) (v : Nat) :
+    Oid.toU32 pos (base128 v) = if v < 2 ^ 32 then some (arcOf pos v) else none := by
+  cases hb : base128 v with
+  | nil =>
+    obtain ⟨init, last, hs, _, _⟩ := base128_isSubId v
+    rw [hb] at hs
+    cases init <;> cases hs
+  | cons s0 t =>
+    have hl := base128_tooLarge v s0 t hb
+    rw [toU32_eq, ← hb, subIdValue_base128]
+    by_cases hv : v < 2 ^ 32
+    · have : ¬ tooLarge s0 t := by rw [hl]; omega
+      simp only [this, hv, if_false, if_true]
+    · have : tooLarge s0 t := by rw [hl]; omega
+      simp only [this, hv, if_false, if_true]
+
+theorem toU32_other_min (v : Nat) (h : v < 2 ^ 32) : Oid.toU32 .other (base128 v) = some v := by
+  rw [toU32_base128]; simp only [h, if_true]; rfl
+
+theorem toU32_large (pos : Oid.Position) (v : Nat) (h : 2 ^ 32 ≤ v) : Oid.toU32 pos (base128 v) = none := by
+  rw [toU32_base128]
+  have : ¬ v < 2 ^ 32 := by omega
+  simp only [this, if_false]
+
+/-- the first-sub-identifier rule of X.690 8.19.4 and its inverse -/
+def validHead (a0 a1 : Nat) : Prop := a0 ≤ 2 ∧ (a0 = 2 ∨ a1 < 40)
+
+theorem arcOf_first (a0 a1 : Nat) (h : validHead a0 a1) : arcOf .first (40 * a0 + a1) = a0 := by
+  unfold validHead at h
+  simp only [arcOf]
+  repeat' split
+  all_goals omega
+
+theorem arcOf_second (a0 a1 : Nat) (h : validHead a0 a1) : arcOf .second (40 * a0 + a1) = a1 := by
+  unfold validHead at h
+  simp only [arcOf]
+  repeat' split
+  all_goals omega
+
+/-! ### arcs → encoding → iterator / numbers -/
+
+theorem subIds_arcs (a0 a1 : Nat) (rest : List Nat) :
+    subIds (arcsToContent (a0 :: a1 :: rest)) = some (((40 * a0 + a1) :: rest).map base128) := by
+  show subIds (List.flatMap base128 ((40 * a0 + a1) :: rest)) = _
+  rw [List.flatMap_def]
+  apply subIds_flat
+  · simp
+  · intro s hs
+    obtain ⟨v, _, hv⟩ := List.mem_map.mp hs
+    rw [← hv]; exact base128_isSubId v
+
+/-- the encoding of any arcs is accepted content -/
+theorem arcs_accepted (a0 a1 : Nat) (rest : List Nat) :
+    Oid.checkContent (arcsToContent (a0 :: a1 :: rest)) = true := by
+  rw [checkContent_eq_subIds, subIds_arcs]; rfl
+
+/-- **C20, iterator on encoded arcs.**  The components of the encoding of `a0.a1.rest` are the
+    minimal sub-identifiers of `40*a0+a1` (twice: first and second position) and of the other arcs. -/
+theorem components_arcs (a0 a1 : Nat) (rest : List Nat) :
+    Oid.components (arcsToContent (a0 :: a1 :: rest)) =
+      .ok ((.first, base128 (40 * a0 + a1)) :: (.second, base128 (40 * a0 + a1)) ::
+        rest.map fun a => (Oid.Position.other, base128 a)) := by
+  rw [components_eq _ _ (subIds_arcs a0 a1 rest)]
+  simp only [List.map_cons, compsOf, List.map_map]
+  rfl
+
+/-- reference decoding inverts reference encoding (sanity of the two reference definitions) -/
+theorem contentToArcs_arcs (a0 a1 : Nat) (rest : List Nat) (h : validHead a0 a1) :
+    contentToArcs (arcsToContent (a0 :: a1 :: rest)) = some (a0 :: a1 :: rest) := by
+  unfold contentToArcs
+  rw [subIds_arcs]
+  simp only [List.map_cons, subIdValue_base128, List.map_map]
+  have hr : rest.map (subIdValue ∘ base128) = rest := by
+    have : (subIdValue ∘ base128) = id := funext subIdValue_base128
+    rw [this, List.map_id]
+  unfold validHead at h
+  rw [hr]
+  by_cases c1 : 40 * a0 + a1 < 40
+  · simp only [c1, if_true]
+    have : a0 = 0 := by omega
+    subst this; simp
+  · by_cases c2 : 40 * a0 + a1 < 80
+    · simp only [c1, c2, if_true, if_false]
+      have : a0 = 1 := by omega
+      subst this
+      have : 40 * 1 + a1 - 40 = a1 := by omega
+      rw [this]
+    · simp only [c1, c2, if_false]
+      have : a0 = 2 := by omega
+      subst this
+      have : 40 * 2 + a1 - 80 = a1 := by omega
+      rw [this]
+
+/-- the numbers the iterator plus `to_u32` report for a content (`none` = "too large") -/
+def numbers (c : Bytes) : Res (List (Option Nat)) :=
+  (Oid.components c).map fun cs => cs.map fun x => Oid.toU32 x.1 x.2
+
+/-- a value that fits `u32`, else "too large" -/
+def lim (bound v : Nat) : Option Nat := if bound < 2 ^ 32 then some v else none
+
+/-- **C20, arcs → encoding → numbers.**  For all arcs with a valid head (`a0 ≤ 2`, `a1 < 40`
+    unless `a0 = 2`): iterating over the X.690 encoding and converting with `to_u32` gives back
+    exactly the arcs whose sub-identifier fits in 32 bits and "too large" for the others (both
+    leading arcs when `40*a0+a1` does not fit) — never a wrong number. -/
+theorem numbers_arcs (a0 a1 : Nat) (rest : List Nat) (h : validHead a0 a1) :
+    numbers (arcsToContent (a0 :: a1 :: rest)) =
+      .ok (lim (40 * a0 + a1) a0 :: lim (40 * a0 + a1) a1 :: rest.map fun a => lim a a) := by
+  unfold numbers
+  rw [components_arcs]
+  simp only [Except.map, List.map_cons, List.map_map, toU32_base128]
+  have e1 := arcOf_first a0 a1 h
+  have e2 := arcOf_second a0 a1 h
+  rw [e1, e2]
+  have hf : ((fun x : Oid.Position × Bytes => Oid.toU32 x.1 x.2) ∘ fun a => (Oid.Position.other, base128 a)) =
+      fun a => lim a a := by
+    funext a
+    simp only [Function.comp, toU32_base128, lim, arcOf]
+  rw [hf]
+  rfl
+
+/-! ## 4. display -/
+
+/-! ### `toString` on `Nat`, as octets, is the reference decimal text -/
+
+theorem loop_eq (bs : ByteArray) : ∀ (n i : Nat) (r : List UInt8), bs.size - i = n →
+    ByteArray.toList.loop bs i r = r.reverse ++ bs.data.toList.drop i := by
+  intro n
+  induction n with
+  | zero =>
+    intro i r h
+    rw [ByteArray.toList.loop.eq_def]
+    have : ¬ i < bs.size := by omega
+    simp only [this, if_false]
+    have hl : bs.data.toList.length ≤ i := by
+      have : bs.data.toList.length = bs.size := by cases bs; exact Array.length_toList
+      omega
+    rw [List.drop_of_length_le hl]; simp
+  | succ n ih =>
+    intro i r h
+    rw [ByteArray.toList.loop.eq_def]
+    have hi : i < bs.size := by omega
+    simp only [hi, if_true]
+    rw [ih (i + 1) _ (by omega)]
+    have hl : i < bs.data.toList.length := by
+      have : bs.data.toList.length = bs.size := by cases bs; exact Array.length_toList
+      omega
+    rw [List.drop_eq_getElem_cons hl]
+    have hg : bs.get! i = bs.data.toList[i] := by
+      cases bs with
+      | mk d =>
+        have hi' : i < d.size := hi
+        show d[i]! = d.toList[i]
+        rw [getElem!_pos d i hi']; simp
+    rw [hg]; simp
+
+theorem toList_eq (bs : ByteArray) : bs.toList = bs.data.toList := by
+  rw [ByteArray.toList.eq_1, loop_eq bs (bs.size - 0) 0 [] rfl]; simp
+
+theorem toList_toByteArray (l : List UInt8) : l.toByteArray.toList = l := by
+  rw [toList_eq, List.data_toByteArray]
+
+theorem toUTF8_ofList (l : List Char) : (String.ofList l).toUTF8.toList = l.flatMap String.utf8EncodeChar := by
+  show (List.utf8Encode l).toList = _
+  unfold List.utf8Encode
+  rw [toList_toByteArray]
+
+theorem enc_digit (d : Nat) (h : d < 10) : String.utf8EncodeChar (Nat.digitChar d) = [UInt8.ofNat (48 + d)] := by
+  have : d = 0 ∨ d = 1 ∨ d = 2 ∨ d = 3 ∨ d = 4 ∨ d = 5 ∨ d = 6 ∨ d = 7 ∨ d = 8 ∨ d = 9 := by omega
+  rcases this with rfl|rfl|rfl|rfl|rfl|rfl|rfl|rfl|rfl|rfl <;> decide
+
+theorem toDigits_step (n : Nat) (h : 10 ≤ n) : Nat.toDigits 10 n = Nat.toDigits 10 (n / 10) ++ [Nat.digitChar (n % 10)] := by
+  have := @Nat.toDigits_append_toDigits 10 (n / 10) (n % 10) (by decide) (by omega) (by omega)
+  rw [Nat.toDigits_of_lt_base (by omega : n % 10 < 10)] at this
+  rw [this]; congr 1; omega
+
+theorem decimalAux_fuel : ∀ (f g n : Nat), n < f → n < g → decimalAux f n = decimalAux g n := by
+  intro f
+  induction f with
+  | zero => intro g n h; omega
+  | succ f ih =>
+    intro g n hf hg
+    cases g with
+    | zero => omega
+    | succ g =>
+      simp only [decimalAux]
+      by_cases h0 : n < 10
+      · simp [h0]
+      · simp only [h0, if_false]
+        rw [ih g (n / 10) (by omega) (by omega)]
+
+theorem decimal_lt (n : Nat) (h : n < 10) : Spec.decimal n = [UInt8.ofNat (48 + n)] := by
+  unfold Spec.decimal
+  simp only [decimalAux, h, if_true, List.nil_append, Nat.mod_eq_of_lt h]
+
+theorem decimal_step (n : Nat) (h : 10 ≤ n) :
+    Spec.decimal n = Spec.decimal (n / 10) ++ [UInt8.ofNat (48 + n % 10)] := by
+  unfold Spec.decimal
+  have h0 : ¬ n < 10 := by omega
+  rw [show decimalAux (n + 1) n =
+    (if n < 10 then [] else decimalAux n (n / 10)) ++ [UInt8.ofNat (48 + n % 10)] from rfl]
+  simp only [h0, if_false]
+  rw [decimalAux_fuel n (n / 10 + 1) (n / 10) (by omega) (by omega)]
+
+theorem digits_text : ∀ (k n : Nat), n < k →
+    (Nat.toDigits 10 n).flatMap String.utf8EncodeChar = Spec.decimal n := by
+  intro k
+  induction k with
+  | zero => intro n h; omega
+  | succ k ih =>
+    intro n hn
+    by_cases h : n < 10
+    · rw [Nat.toDigits_of_lt_base h, decimal_lt n h]
+      simp only [List.flatMap_cons, List.flatMap_nil, List.append_nil]
+      exact enc_digit n h
+    · rw [toDigits_step n (by omega), decimal_step n (by omega), List.flatMap_append,
+        ih (n / 10) (by omega)]
+      simp only [List.flatMap_cons, List.flatMap_nil, List.append_nil]
+      rw [enc_digit (n % 10) (by omega)]
+
+/-- the model's decimal text (`toString`, UTF-8 octets) is the reference decimal text -/
+theorem decimal_eq (n : Nat) : Oid.decimal n = Spec.decimal n := by
+  unfold Oid.decimal
+  show (String.ofList (Nat.toDigits 10 n)).toUTF8.toList = _
+  rw [toUTF8_ofList, digits_text (n + 1) n (by omega)]
+
+/-! ### `Display` in terms of the numbers -/
+
+def joinDot : List Bytes → Bytes
+  | [] => []
+  | t :: ts => ts.foldl (fun acc x => acc ++ [0x2E] ++ x) t
+
+/-- the text of one component: its number, or the fixed text for "too large" -/
+def textOf : Option Nat → Bytes
+  | some v => Spec.decimal v
+  | none => "(very large component)".toUTF8.toList
+
+theorem componentText_eq (c : Oid.Position × Bytes) : Oid.componentText c = textOf (Oid.toU32 c.1 c.2) := by
+  unfold Oid.componentText textOf
+  cases Oid.toU32 c.1 c.2 with
+  | none => rfl
+  | some v => exact decimal_eq v
+
+/-- **Display, every content**: the displayed text is the dot-separated text of the numbers that
+    the iterator and `to_u32` report (with the fixed text for "too large" components); a panic or
+    error arises only if the iterator fails -/
+theorem display_numbers (c : Bytes) :
+    Oid.display c = (numbers c).map fun ns => joinDot (ns.map textOf) := by
+  unfold Oid.display numbers
+  cases Oid.components c with
+  | error e => rfl
+  | ok cs =>
+    cases cs with
+    | nil => rfl
+    | cons x rest =>
+      show Except.ok _ = Except.ok _
+      congr 1
+      simp only [List.map_cons, joinDot, List.map_map, List.foldl_map, componentText_eq, Function.comp]
+
+theorem joinDot_cons (t : Bytes) (ts : List Bytes) :
+    joinDot (t :: ts) = t ++ ts.flatMap fun x => 0x2E :: x := by
+  show ts.foldl (fun acc x => acc ++ [0x2E] ++ x) t = _
+  induction ts generalizing t with
+  | nil => simp
+  | cons x ts ih =>
+    simp only [List.foldl, List.flatMap_cons]
+    rw [ih]; simp
+
+theorem dotted_cons (a : Nat) (rest : List Nat) :
+    Spec.dotted (a :: rest) = Spec.decimal a ++ rest.flatMap fun x => 0x2E :: Spec.decimal x := by
+  induction rest generalizing a with
+  | nil => simp [Spec.dotted]
+  | cons b r ih =>
+    simp only [Spec.dotted, List.flatMap_cons]
+    rw [ih]; simp
+
+theorem joinDot_dotted (arcs : List Nat) : joinDot (arcs.map fun a => textOf (some a)) = Spec.dotted arcs := by
+  cases arcs with
+  | nil => rfl
+  | cons a rest =>
+    rw [List.map_cons, joinDot_cons, dotted_cons, List.flatMap_map]
+    rfl
+
+/-- all sub-identifiers of `a0.a1.rest` fit in 32 bits -/
+def fits32 (a0 a1 : Nat) (rest : List Nat) : Prop := 40 * a0 + a1 < 2 ^ 32 ∧ ∀ a ∈ rest, a < 2 ^ 32
+
+theorem numbers_arcs_fit (a0 a1 : Nat) (rest : List Nat) (h : validHead a0 a1) (hf : fits32 a0 a1 rest) :
+    numbers (arcsToContent (a0 :: a1 :: rest)) = .ok ((a0 :: a1 :: rest).map some) := by
+  rw [numbers_arcs a0 a1 rest h]
+  obtain ⟨h1, h2⟩ := hf
+  simp only [lim, h1, if_true, List.map_cons]
+  congr 3
+  apply List.map_congr_left
+  intro a ha
+  simp only [h2 a ha, if_true]
+
+/-- **C20, display.**  For arcs with a valid head whose sub-identifiers fit in 32 bits, displaying
+    the X.690 encoding gives the canonical dotted-decimal text. -/
+theorem display_arcs (a0 a1 : Nat) (rest : List Nat) (h : validHead a0 a1) (hf : fits32 a0 a1 rest) :
+    Oid.display (arcsToContent (a0 :: a1 :: rest)) = .ok (Spec.dotted (a0 :: a1 :: rest)) := by
+  rw [display_numbers, numbers_arcs_fit a0 a1 rest h hf]
+  show Except.ok (joinDot (List.map textOf (List.map some (a0 :: a1 :: rest)))) = _
+  rw [List.map_map]
+  exact congrArg _ (joinDot_dotted (a0 :: a1 :: rest))
+
+/-! ## 5. the round trips -/
+
+/-- what a successful parse means: the text's pieces are the arcs `a0.a1.rest`, the head is valid,
+    every sub-identifier fits in 32 bits, and the result is the X.690 encoding of these arcs -/
+theorem fromStr_some (s c : Bytes) (h : Oid.fromStr s = some c) :
+    ∃ a0 a1 rest, (splitOn 0x2E s).mapM parseArc = some (a0 :: a1 :: rest) ∧
+      validHead a0 a1 ∧ fits32 a0 a1 rest ∧ c = arcsToContent (a0 :: a1 :: rest) := by
+  rw [fromStr_eq_spec] at h
+  unfold parseOid at h
+  cases hm : (splitOn 0x2E s).mapM parseArc with
+  | none => simp [hm] at h
+  | some arcs =>
+    rw [hm] at h
+    rcases arcs with _ | ⟨a0, _ | ⟨a1, rest⟩⟩
+    · simp at h
+    · simp at h
+    · simp only [] at h
+      by_cases h1 : a0 > 2
+      · simp [h1] at h
+      · by_cases h2 : (decide (a0 < 2) && decide (a1 ≥ 40)) = true
+        · simp only [h1, h2, if_true, if_false] at h; cases h
+        · by_cases h3 : 40 * a0 + a1 ≥ 2 ^ 32
+          · simp only [h1, h2, h3, if_true, if_false] at h; cases h
+          · simp only [h1, h2, h3, if_false] at h
+            have hv : validHead a0 a1 := by
+              unfold validHead
+              simp only [Bool.and_eq_true, decide_eq_true_eq, not_and] at h2
+              omega
+            have hall := mapM_lt _ _ hm
+            refine ⟨a0, a1, rest, rfl, hv, ⟨by omega, ?_⟩, ?_⟩
+            · intro a ha
+              exact hall a (List.mem_cons_of_mem _ (List.mem_cons_of_mem _ ha))
+            · exact (Option.some.inj h).symm
+
+/-- **C20, text → encoding → text.**  Whenever parsing a text succeeds, the result is accepted
+    content, and displaying it gives the canonical dotted-decimal text of the arcs written in the
+    input (no `+`, no leading zeros). -/
+theorem display_fromStr (s c : Bytes) (h : Oid.fromStr s = some c) :
+    ∃ arcs, (splitOn 0x2E s).mapM parseArc = some arcs ∧ Oid.checkContent c = true ∧
+      contentToArcs c = some arcs ∧ numbers c = .ok (arcs.map some) ∧
+      Oid.display c = .ok (Spec.dotted arcs) := by
+  obtain ⟨a0, a1, rest, hm, hv, hf, hc⟩ := fromStr_some s c h
+  subst hc
+  exact ⟨_, hm, arcs_accepted a0 a1 rest, contentToArcs_arcs a0 a1 rest hv,
+    numbers_arcs_fit a0 a1 rest hv hf, display_arcs a0 a1 rest hv hf⟩
+
+/-! ### arcs → canonical text → encoding -/
+
+theorem ofNat_digit (d : Nat) (h : d < 10) : isDigit (UInt8.ofNat (48 + d)) = true ∧
+    (UInt8.ofNat (48 + d)).toNat - 48 = d := by
+  unfold isDigit
+  rw [toNat_ofNat]
+  have : (48 + d) % 256 = 48 + d := by omega
+  rw [this]
+  constructor
+  · simp; omega
+  · omega
+
+theorem decimal_props : ∀ (k n : Nat), n < k →
+    (∀ b ∈ Spec.decimal n, isDigit b = true) ∧ Spec.decimal n ≠ [] ∧
+    (Spec.decimal n).foldl stepS 0 = n := by
+  intro k
+  induction k with
+  | zero => intro n h; omega
+  | succ k ih =>
+    intro n hn
+    by_cases h : n < 10
+    · rw [decimal_lt n h]
+      obtain ⟨d1, d2⟩ := ofNat_digit n h
+      refine ⟨?_, by simp, ?_⟩
+      · intro b hb; rw [List.mem_singleton] at hb; rw [hb]; exact d1
+      · simp only [List.foldl, stepS]; omega
+    · rw [decimal_step n (by omega)]
+      obtain ⟨i1, i2, i3⟩ := ih (n / 10) (by omega)
+      obtain ⟨d1, d2⟩ := ofNat_digit (n % 10) (by omega)
+      refine ⟨?_, by simp, ?_⟩
+      · intro b hb
+        rw [List.mem_append, List.mem_singleton] at hb
+        cases hb with
+        | inl hb => exact i1 b hb
+        | inr hb => rw [hb]; exact d1
+      · rw [List.foldl_append, i3]
+        simp only [List.foldl, stepS]; omega
+
+theorem isDigit_ne (b : UInt8) (h : isDigit b = true) : b ≠ 0x2E ∧ (b == 0x2B) = false := by
+  unfold isDigit at h
+  simp only [Bool.and_eq_true, decide_eq_true_eq] at h
+  constructor
+  · intro e; subst e; have : (0x2E : UInt8).toNat = 46 := rfl; omega
+  · rw [byte_beq_iff]; have : (0x2B : UInt8).toNat = 43 := rfl; simp; omega
+
+/-- the canonical decimal text of a number below 2^32 parses back to it -/
+theorem parseArc_decimal (n : Nat) (h : n < 2 ^ 32) : parseArc (Spec.decimal n) = some n := by
+  obtain ⟨p1, p2, p3⟩ := decimal_props (n + 1) n (by omega)
+  rw [parseArc_strip]
+  have hs : strip (Spec.decimal n) = Spec.decimal n := by
+    cases hd : Spec.decimal n with
+    | nil => exact absurd hd p2
+    | cons b t =>
+      have := (isDigit_ne b (p1 b (by rw [hd]; exact List.mem_cons_self))).2
+      simp only [strip, this, Bool.false_eq_true, if_false]
+  rw [hs]
+  unfold parseS
+  have he : (Spec.decimal n).isEmpty = false := by
+    cases hd : Spec.decimal n with
+    | nil => exact absurd hd p2
+    | cons _ _ => rfl
+  have ha : (Spec.decimal n).all isDigit = true := List.all_eq_true.mpr p1
+  simp only [he, ha, Bool.not_true, Bool.or_self, Bool.false_eq_true, if_false, p3, h, if_true]
+
+theorem splitOn_ne_nil (sep : UInt8) (x : Bytes) : splitOn sep x ≠ [] := by
+  cases x with
+  | nil => simp [splitOn]
+  | cons b r =>
+    simp only [splitOn]
+    cases splitOn sep r with
+    | nil => simp
+    | cons c m => by_cases h : (b == sep) = true <;> simp [h]
+
+theorem splitOn_nosep (sep : UInt8) (x : Bytes) (h : ∀ b ∈ x, b ≠ sep) : splitOn sep x = [x] := by
+  induction x with
+  | nil => rfl
+  | cons b r ih =>
+    have hb : (b == sep) = false := by simpa using h b List.mem_cons_self
+    simp only [splitOn, ih (fun c hc => h c (List.mem_cons_of_mem _ hc)), hb, Bool.false_eq_true, if_false]
+
+theorem splitOn_append (sep : UInt8) (x y : Bytes) (h : ∀ b ∈ x, b ≠ sep) :
+    splitOn sep (x ++ sep :: y) = x :: splitOn sep y := by
+  induction x with
+  | nil =>
+    simp only [List.nil_append, splitOn]
+    cases hy : splitOn sep y with
+    | nil => exact absurd hy (splitOn_ne_nil sep y)
+    | cons c m => simp
+  | cons b r ih =>
+    have hb : (b == sep) = false := by simpa using h b List.mem_cons_self
+    simp only [List.cons_append, splitOn, ih (fun c hc => h c (List.mem_cons_of_mem _ hc)), hb,
+      Bool.false_eq_true, if_false]
+
+theorem decimal_nodot (n : Nat) : ∀ b ∈ Spec.decimal n, b ≠ 0x2E := fun b hb =>
+  (isDigit_ne b ((decimal_props (n + 1) n (by omega)).1 b hb)).1
+
+/-- the canonical text splits at the dots into the decimal texts of the arcs -/
+theorem splitOn_dotted (a : Nat) (rest : List Nat) :
+    splitOn 0x2E (Spec.dotted (a :: rest)) = (a :: rest).map Spec.decimal := by
+  induction rest generalizing a with
+  | nil => exact splitOn_nosep _ _ (decimal_nodot a)
+  | cons b r ih =>
+    show splitOn 0x2E (Spec.decimal a ++ [0x2E] ++ Spec.dotted (b :: r)) = _
+    rw [List.append_assoc, List.singleton_append, splitOn_append _ _ _ (decimal_nodot a), ih b]
+    rfl
+
+theorem mapM_decimal (arcs : List Nat) (h : ∀ a ∈ arcs, a < 2 ^ 32) :
+    (arcs.map Spec.decimal).mapM parseArc = some arcs := by
+  induction arcs with
+  | nil => rfl
+  | cons a r ih =>
+    rw [List.map_cons, List.mapM_cons, parseArc_decimal a (h a List.mem_cons_self),
+      ih (fun b hb => h b (List.mem_cons_of_mem _ hb))]
+    rfl
+
+/-- **C20, arcs → text → encoding.**  For arcs with a valid head whose sub-identifiers fit in 32
+    bits, parsing the canonical text gives exactly the X.690 encoding of the arcs. -/
+theorem fromStr_dotted (a0 a1 : Nat) (rest : List Nat) (h : validHead a0 a1) (hf : fits32 a0 a1 rest) :
+    Oid.fromStr (Spec.dotted (a0 :: a1 :: rest)) = some (arcsToContent (a0 :: a1 :: rest)) := by
+  rw [fromStr_eq_spec]
+  unfold parseOid
+  obtain ⟨f1, f2⟩ := hf
+  unfold validHead at h
+  have hall : ∀ a ∈ a0 :: a1 :: rest, a < 2 ^ 32 := by
+    intro a ha
+    rcases List.mem_cons.mp ha with rfl | ha
+    · omega
+    · rcases List.mem_cons.mp ha with rfl | ha
+      · omega
+      · exact f2 a ha
+  rw [splitOn_dotted, mapM_decimal _ hall]
+  have h1 : ¬ a0 > 2 := by omega
+  have h2 : ¬ ((decide (a0 < 2) && decide (a1 ≥ 40)) = true) := by
+    simp only [Bool.and_eq_true, decide_eq_true_eq, not_and]; omega
+  have h3 : ¬ 40 * a0 + a1 ≥ 2 ^ 32 := by omega
+  simp only [h1, h2, h3, if_false, Bool.false_eq_true]
+
+/-- **C20, the full circle on accepted texts**: parse, display, parse again gives the same
+    content octets -/
+theorem fromStr_display_fromStr (s c : Bytes) (h : Oid.fromStr s = some c) :
+    ∃ t, Oid.display c = .ok t ∧ Oid.fromStr t = some c := by
+  obtain ⟨a0, a1, rest, _, hv, hf, hc⟩ := fromStr_some s c h
+  subst hc
+  exact ⟨_, display_arcs a0 a1 rest hv hf, fromStr_dotted a0 a1 rest hv hf⟩
 
 end Bcder.Props.C20
